@@ -43,3 +43,9 @@ pub fn eprint_nop(_args: core::fmt::Arguments<'_>) {}
 pub fn random_state_fixed() -> std::hash::RandomState {
     unsafe { core::mem::transmute::<(u64, u64), std::hash::RandomState>((1u64, 2u64)) }
 }
+
+/// `<f64 as FromStr>::from_str` model for harnesses in which the amount value is irrelevant (the
+/// amount text is a concrete valid constant in those harnesses): always Ok(1.0).
+pub fn f64_from_str_model(_s: &str) -> Result<f64, core::num::ParseFloatError> {
+    Ok(1.0)
+}
